@@ -169,6 +169,9 @@ type g5World struct {
 	mu       sync.Mutex
 	sessions []*g5Session
 	deny     map[*g5Session]bool
+	// goneIn: the client connection of that session is closed (the client went away) WHILE the LoginEvent
+	// for it is being fired
+	goneIn map[*g5Session]bool
 	// DisconnectEvents in firing order
 	disconnects []g5Disc
 }
@@ -198,19 +201,28 @@ func g5NewWorld(onlineMode, kickExisting bool) *g5World {
 		playerIDs:        map[uuid.UUID]*connectedPlayer{},
 	}
 	p.currentCfg.Store(&runtimeConfigSnapshot{cfg: &cfg})
-	w := &g5World{Proxy: p, Events: ev, Cfg: &cfg, deny: map[*g5Session]bool{}}
+	w := &g5World{Proxy: p, Events: ev, Cfg: &cfg, deny: map[*g5Session]bool{}, goneIn: map[*g5Session]bool{}}
 	event.Subscribe(ev, 0, func(e *LoginEvent) {
 		cp, _ := e.Player().(*connectedPlayer)
 		w.mu.Lock()
 		var deny bool
+		var gone *g5Session
 		for s, d := range w.deny {
 			if d && s.mc == cp.MinecraftConn {
 				deny = true
 			}
 		}
+		for s, g := range w.goneIn {
+			if g && s.mc == cp.MinecraftConn {
+				gone = s
+			}
+		}
 		w.mu.Unlock()
 		if deny {
 			e.Deny(&component.Text{Content: "denied by plugin"})
+		}
+		if gone != nil {
+			_ = netmc.CloseUnknown(gone.mc)
 		}
 	})
 	event.Subscribe(ev, 0, func(e *DisconnectEvent) {
@@ -275,6 +287,24 @@ func (s *g5Session) login() {
 	s.mc.SetActiveSessionHandler(state.Login, s.handler)
 	s.accepted = !s.closed()
 	s.loginReturned = true
+}
+
+// goneDuringLoginEvent arranges that the client connection is closed while this session's LoginEvent is
+// fired (call before login).
+func (s *g5Session) goneDuringLoginEvent() {
+	s.w.mu.Lock()
+	s.w.goneIn[s] = true
+	s.w.mu.Unlock()
+}
+
+// acknowledge is the client's LoginAcknowledged packet (1.20.2+) reaching the auth handler, as the read
+// loop delivers it: the proxy moves the client to the configuration handler and looks for an initial
+// server; a world without servers then disconnects the player ("no available servers") - a
+// proxy-initiated disconnect that runs through the CONFIGURATION handler's teardown.
+func (s *g5Session) acknowledge() {
+	s.discCalled = true
+	s.handler.HandlePacket(&proto.PacketContext{Direction: proto.ServerBound, Protocol: s.mc.Protocol(), Packet: &packet.LoginAcknowledged{}})
+	s.discReturned = true
 }
 
 // disconnect is the client going away: the read loop ends and closes the connection, which runs
